@@ -215,19 +215,87 @@ def _loop_body(F, branch):
 
 
 def _every_cycle_hits(F, body, head, marks):
-    """no cycle through `head` inside `body` avoids all marked nodes"""
-    seen = set()
-    st = [s for s in F.g.nodes[head].succ if s in body]
+    """no feasible cycle through `head` inside `body` avoids all marked nodes.  Path-sensitive in the boolean locals that are assigned
+    literals on the way: `closed = true; ...; while (not closed and ...)` does not take the back edge."""
     if head in marks:
         return True
+
+    def tri(e, known):
+        if e[0] == 'num':
+            return e[1] != 0
+        if e[0] == 'var':
+            return known.get(e[1])
+        if e[0] == 'op' and e[1] == 'not':
+            v = tri(e[2], known)
+            return None if v is None else (not v)
+        if e[0] == 'op' and e[1] in ('and', 'or'):
+            vs = [tri(x, known) for x in e[2:]]
+            if e[1] == 'and':
+                return False if any(v is False for v in vs) else (None if any(v is None for v in vs) else True)
+            return True if any(v is True for v in vs) else (None if any(v is None for v in vs) else False)
+        return None
+    def step(i, kn):
+        """successors (inside the body) of node i under the known flags kn -> [(succ, kn')]"""
+        n = F.g.nodes[i]
+        known = dict(kn)
+        if n.kind == 'assign' and n.stmt[1][0] == 'var':
+            v = n.stmt[2]
+            if v[0] == 'num' and v[1] in (0, 1):
+                known[n.stmt[1][1]] = bool(v[1])
+            else:
+                known.pop(n.stmt[1][1], None)
+        elif n.kind == 'call':
+            for a in n.stmt[2]:
+                if a[0] == 'var':
+                    known.pop(a[1], None)
+        succ = [s_ for s_ in n.succ if s_ in body]
+        if n.kind == 'branch' and len(n.succ) == 2 and n.succ[0] != n.succ[1]:
+            t = tri(n.stmt[1], known)
+            if t is True:
+                succ = [n.succ[0]] if n.succ[0] in body else []
+            elif t is False:
+                succ = [n.succ[1]] if n.succ[1] in body else []
+        kn2 = tuple(sorted(known.items()))
+        return [(s_, kn2) for s_ in succ]
+    # flags at loop entry: boolean locals given a literal by the one assignment that dominates the loop head from outside
+    entry = {}
+    for n in F.g.nodes:
+        if n.kind == 'assign' and n.stmt[1][0] == 'var' and n.id not in body and n.stmt[2][0] == 'num' and n.stmt[2][1] in (0, 1) \
+                and F.dominates(n, F.g.nodes[head]):
+            v = n.stmt[1][1]
+            others = [m for m in F.g.nodes if m.kind == 'assign' and m.stmt[1] == n.stmt[1] and m.id not in body and m.id != n.id]
+            if not others:
+                entry[v] = bool(n.stmt[2][1])
+    # all flag states that can hold at the head (entry state, and what earlier iterations leave behind)
+    heads = {tuple(sorted(entry.items()))}
+    todo = list(heads)
+    while todo:
+        h0 = todo.pop()
+        seen0 = set()
+        st0 = step(head, h0)
+        while st0:
+            i, kn = st0.pop()
+            if i == head:
+                if kn not in heads:
+                    heads.add(kn)
+                    todo.append(kn)
+                continue
+            if (i, kn) in seen0:
+                continue
+            seen0.add((i, kn))
+            st0.extend(step(i, kn))
+        if len(heads) > 64:
+            return False
+    seen = set()
+    st = [x for h0 in heads for x in step(head, h0)]
     while st:
-        i = st.pop()
-        if i in seen or i in marks:
+        i, kn = st.pop()
+        if (i, kn) in seen or i in marks:
             continue
         if i == head:
             return False
-        seen.add(i)
-        st.extend(s for s in F.g.nodes[i].succ if s in body)
+        seen.add((i, kn))
+        st.extend(step(i, kn))
     return True
 
 
